@@ -460,3 +460,12 @@ def r8(rr, repo):
         rets = [s_ for s_ in fn.body if isinstance(s_, ast.Return)]
         rr.ob(f'{fn.name} starts from an empty result and returns the dictionary the loop filled (one entry per topic, nothing carried over)', len(inits) == 1 and len(rets) == 1 and rets[0].value is not None and U(rets[0].value) == out and rets[0].lineno > loop.lineno,
               mod, fn, key=f'codec-result|{fn.name}')
+
+
+@rule('C09.R9', "the JPEG that goes on the wire is the encoding of the pixels of the frame that is sent: a cached encoding exists only for pixels that can no longer change, and the 'read-only copy' a cache is built "
+                'on really is a copy (shares C10.R1, C10.R2, C10.R3)')
+def r9(rr, repo):
+    from .c10 import r1 as c10r1, r2 as c10r2, r3 as c10r3
+    c10r1(rr, repo)
+    c10r2(rr, repo)
+    c10r3(rr, repo)
